@@ -78,7 +78,7 @@ class Ctx:
             self.samples.append(sample)
 
     def disagree(self, stream: str, index: int, what: str, detail: dict) -> None:
-        self.disagreements.append({'stream': stream, 'index': index, 'what': what, **detail})
+        self.disagreements.append({'stream': stream, 'index': index, 'what': what, 'detail': detail})
 
     def dump(self) -> dict:
         return {'evaluations': self.evaluations, 'nontrivial': sorted(self.nontrivial),
@@ -103,7 +103,7 @@ class Ctx:
     def fail(self, stream: str, index: int, signature: str, what: str, detail: dict) -> None:
         """The property predicate is false on the real implementation for this case."""
         self.failures.append({'stream': stream, 'index': index, 'signature': signature,
-                              'what': what, **detail})
+                              'what': what, 'detail': detail})
 
 
 def _short(obj, limit=2000):
